@@ -924,6 +924,7 @@ def drv_ttc(case, rnd, ctx, S):
                     if rnd.random() < 0.3:
                         pass
                 ncap = len(S["captures"])
+                loaded_before = [{t for t in font.keys() if font.isLoaded(t)} for font in coll.fonts]
                 with ctx.lib("save-ttc", share=str(share)):
                     coll.save(dest, shareTables=share)
                 if len(S["captures"]) == ncap:
@@ -938,8 +939,14 @@ def drv_ttc(case, rnd, ctx, S):
                         font.save(io.BytesIO(), reorderTables=None)
                     font.flavor = saved_flavor
                     solo = S["captures"][-1]
+                    # a table that the collection save itself decompiled as a side effect (head.compile reads CFF2
+                    # for the font box) went into the collection as the original bytes but is re-encoded by the
+                    # standalone save: same content, legitimately different bytes -> not a member/standalone difference
+                    side = {t for t in font.keys() if font.isLoaded(t)} - loaded_before[mi]
                     S["n"] += _tables_equal(ctx, S, (st, mp, 0), solo, "ttc-member/standalone",
-                                            "member %d of the collection (shareTables=%s)" % (mi, share), "the same font saved alone")
+                                            "member %d of the collection (shareTables=%s)" % (mi, share), "the same font saved alone",
+                                            skip={t.encode("latin-1") for t in side})
+                    loaded_before[mi] |= side
                 del S["captures"][:]
         for f in coll.fonts:
             f.close()
